@@ -193,7 +193,7 @@ ASSUMPTIONS["C19"] = ["ELF section names live at an external address (documented
 PLANS["C01"] = dict(
     quick=[run("dev", procs=8, max_cases=120000, budget_s=35), run("rel", procs=8, max_cases=400000, budget_s=35), run("asan", procs=8, max_cases=150000, budget_s=35, timeout_s=900),
            run("miri", procs=16, density=4096, budget_s=55, timeout_s=900), run("miri-rel", procs=8, density=8192, budget_s=45, timeout_s=900),
-           run("dev", driver="C01vbe", procs=1, timeout_s=120), run("rel", driver="C01vbe", procs=1, timeout_s=120)],
+           run("dev", driver="C01vbe", procs=1, timeout_s=120), run("rel", driver="C01vbe", procs=1, timeout_s=120), run("fuzz", modes="0,3", secs=30)],
     thorough=[run("dev", max_cases=1500000, budget_s=600, timeout_s=3000), run("rel", max_cases=6000000, budget_s=600, timeout_s=3000), run("asan", max_cases=2000000, budget_s=600, timeout_s=3000),
               run("miri", procs=16, density=4096, budget_s=900, timeout_s=3000), run("miri-rel", procs=16, density=4096, budget_s=900, timeout_s=3000),
               run("dev", driver="C01vbe", procs=1, timeout_s=120), run("rel", driver="C01vbe", procs=1, timeout_s=120), run("miri", driver="C01vbe", procs=1, timeout_s=300),
@@ -212,7 +212,7 @@ LEVEL_NOTES["C01"] = "trusted base: Miri (UB interpreter), the MMU (guard pages)
 # ------------------------------------------------------------------ C09 ----
 PLANS["C09"] = dict(
     quick=[run("dev", procs=8, max_cases=150000, budget_s=30), run("rel", procs=8, max_cases=400000, budget_s=30), run("asan", procs=8, max_cases=150000, budget_s=30, timeout_s=900),
-           run("miri", procs=16, density=4096, budget_s=50, timeout_s=900)],
+           run("miri", procs=16, density=4096, budget_s=50, timeout_s=900), run("fuzz", modes="1", secs=30)],
     thorough=[run("dev", max_cases=1500000, budget_s=500, timeout_s=3000), run("rel", max_cases=6000000, budget_s=500, timeout_s=3000), run("asan", max_cases=2000000, budget_s=500, timeout_s=3000),
               run("miri", procs=16, density=4096, budget_s=900, timeout_s=3000), run("miri-rel", procs=16, density=4096, budget_s=900, timeout_s=3000),
               run("fuzz", modes="1", secs=240)],
